@@ -15,18 +15,26 @@ def unhx(h):
 
 class C17(Check):
     prop = "C17"
-    vfiles = ["Properties/Properties_C17.v"]
+    vfiles = ["Properties/Properties_C17.v", "Tie/Tie_C17.v"]
     cpp = dict(name="str", driver_src="harness/str_driver.cpp")
     ocaml = dict(name="str", extracted="str_model.ml", glue=("glue_base.ml",))
     corpus = "C17.txt"
     design_ref = "DESIGN.md section 6, C17"
-    technique = "Coq proof over an executable model of string.hpp (induction on fuel/lists) + extraction-based differential test against the C++"
+    technique = ("Coq proof over an executable model of string.hpp (induction on fuel/lists); the four function bodies are re-translated from "
+                 "the source by clang on every run and proved equal to the model for all inputs (Tie_C17, loop invariants over a small "
+                 "imperative language); + extraction-based differential test against the C++")
     level_text = ("Nine theorems (lossless split, piece count, clean pieces, empty-needle raise, replace_all = single left-to-right pass and "
                   "always returns, starts_with = prefix relation, join = intercalate of the non-empty elements) proved in Coq for ALL byte strings "
-                  "over a Gallina model that follows the C++ loops; the model is tied to /repo by running the extracted model and the real "
+                  "over a Gallina model that follows the C++ loops; the model is tied to /repo (a) by translation: gen/tr_string.py re-reads the bodies "
+                  "of split, replace_all, starts_with and the iterator overload of join from clang's AST on every run into statements of a small "
+                  "imperative language (Str/StrLang.v), and Tie_C17 (4 theorems, loop invariants by induction on the fuel / the element list) "
+                  "proves for ALL byte strings that the interpreter run on those bodies returns exactly the model's split / replace_all / "
+                  "starts_with / join; an unknown construct is SUnknown, on which the interpreter is stuck and no obligation is provable; (b) by running the extracted model and the real "
                   "functions (ASan/UBSan build of the working tree) on the same exhaustive + random cases and diffing; an oracle extracted "
                   "from the spec judges every differing observation")
-    level_note = ("trusted: Coq kernel, ExtrOcamlBasic extraction, OCaml compiler, the differential harness; assumed: libstdc++ "
+    level_note = ("trusted: Coq kernel, ExtrOcamlBasic extraction, OCaml compiler, the differential harness, gen/tr_string.py's reading of the "
+                  "clang AST and the meaning StrLang.v gives to find/substr/replace/size/empty/+=/emplace_back and to the "
+                  "stringstream element-rendering idiom of join (sizes are unbounded naturals; size_t wrap-around not modelled); assumed: libstdc++ "
                   "std::string::find/substr/replace, stringstream rendering of join elements (only std::string elements are exercised); "
                   "the correspondence is bounded-exhaustive + sampled, not proved")
     rule = ("exhaustive strings over {a,b,' '} up to a length bound x all needles/patterns (incl. empty, overlapping, self-containing) "
